@@ -38,6 +38,8 @@ type threadCtx struct {
 	usedT    bool
 	usedE    bool
 	more     []*threadCtx // further `if`s that follow immediately and test another result of the same call
+	prefix   []ast.Stmt   // simple statements between the call and the first `if` (run, in order, before it at every return site)
+	usedPfx  bool
 }
 
 // parseCond: cond is a test of a single operand.
@@ -111,7 +113,31 @@ func (in *inliner) rewriteThreaded(list []ast.Stmt, i int, fd *ast.FuncDecl, fil
 	if ce == nil {
 		return nil, 0, false
 	}
-	ifs, ok := list[i+1].(*ast.IfStmt)
+	// up to three simple statements may stand between the call and the `if` that consumes it (`n += nr`): they are
+	// carried along to every return site
+	var prefix []ast.Stmt
+	j0 := i + 1
+	for j0 < len(list) && len(prefix) < 3 {
+		switch x := list[j0].(type) {
+		case *ast.AssignStmt:
+			if x.Tok == token.DEFINE || containsFuncLit(x) {
+				j0 = len(list)
+				continue
+			}
+			prefix = append(prefix, x)
+			j0++
+			continue
+		case *ast.IncDecStmt:
+			prefix = append(prefix, x)
+			j0++
+			continue
+		}
+		break
+	}
+	if j0 >= len(list) {
+		return nil, 0, false
+	}
+	ifs, ok := list[j0].(*ast.IfStmt)
 	if !ok || ifs.Init != nil {
 		return nil, 0, false
 	}
@@ -123,7 +149,18 @@ func (in *inliner) rewriteThreaded(list []ast.Stmt, i int, fd *ast.FuncDecl, fil
 	if !ok {
 		return nil, 0, false
 	}
-	th := &threadCtx{ifs: ifs, kind: kind, testIdx: -1}
+	th := &threadCtx{ifs: ifs, kind: kind, testIdx: -1, prefix: prefix}
+	for _, ps := range prefix {
+		// the statements in between must not touch what the consumers test, nor call the helper again
+		for _, l := range as.Lhs {
+			if id, ok := l.(*ast.Ident); ok && id.Name != "_" && assignsTo(ps, id.Name) {
+				return nil, 0, false
+			}
+		}
+		if in.containsCallTo(ps, c) != nil {
+			return nil, 0, false
+		}
+	}
 	for k, l := range as.Lhs {
 		id, ok := l.(*ast.Ident)
 		if !ok {
@@ -190,7 +227,7 @@ func (in *inliner) rewriteThreaded(list []ast.Stmt, i int, fd *ast.FuncDecl, fil
 		}
 		return true
 	})
-	for j := i + 2; j < len(list); j++ {
+	for j := j0 + 1; j < len(list); j++ {
 		nx, ok := list[j].(*ast.IfStmt)
 		if !ok || nx.Init != nil {
 			break
@@ -218,7 +255,7 @@ func (in *inliner) rewriteThreaded(list []ast.Stmt, i int, fd *ast.FuncDecl, fil
 		th.more = append(th.more, &threadCtx{ifs: nx, kind: kind2, testIdx: idx})
 	}
 	if repl, ok := in.tryThread(ce, as, fd, file, c, th); ok {
-		return repl, 2 + len(th.more), true
+		return repl, 2 + len(prefix) + len(th.more), true
 	}
 	return nil, 0, false
 }
@@ -515,6 +552,16 @@ func (in *inliner) threadedReturnRewriter(th *threadCtx, res []string, named []s
 			}
 		}
 		out = append(out, &ast.AssignStmt{Lhs: lhs, Tok: token.ASSIGN, Rhs: rhs})
+		if len(th.prefix) > 0 {
+			if !th.usedPfx {
+				th.usedPfx = true
+				out = append(out, th.prefix...)
+			} else {
+				for _, ps := range th.prefix {
+					out = append(out, copyNode(ps, nil, in.info).(ast.Stmt))
+				}
+			}
+		}
 		for k, t := range chain {
 			switch ocs[k] {
 			case 1:
